@@ -1,6 +1,6 @@
 (* C19 -- illegal intent values are ignored or reported as configured (lexer / parser / attribute handling).
    Statements only.  The speech-rule engine and the argument search are oracles (Section variables of the model). *)
-From MC Require Import Lib.Base Lib.Tree Gen.IntentRe Gen.ElemSets Model.Intent Proofs.IntentP.
+From MC Require Import Lib.Base Lib.Tree Gen.IntentRe Gen.ElemSets Model.Intent Proofs.IntentP Model.FindArg Proofs.FindArgP.
 Local Open Scope N_scope.
 
 (* every token consumes at least one code point, so lexing any string terminates ... *)
@@ -33,3 +33,29 @@ Theorem tree_restored : forall k,
   attrs_after false false property_branch_events k = (false, false) /\ attrs_after false false recovery_events k = (false, false).
 Proof. exact L_tree_restored. Qed.
 Print Assumptions tree_restored.
+
+(* ------------------------------------------------------------------------------------------------------------------
+   find_arg (Model/FindArg.v, tied by Tie/C19Tie.v): which element a reference $name stands for.  For EVERY tree, whatever
+   args and intents its elements carry:
+   ------------------------------------------------------------------------------------------------------------------ *)
+
+(* the reference is the first element, in document order, that carries the name and is not inside an element with an
+   intent of its own or with another arg; it is dangling exactly when there is no such element *)
+Theorem reference_is_first_visible_argument : forall name t, resolve name t = hd_error (visible_from name t).
+Proof. exact L_resolve_is_first_visible. Qed.
+Print Assumptions reference_is_first_visible_argument.
+
+(* nothing below an element that carries an intent of its own, or another arg, can satisfy a reference from above
+   ("nests illegally") *)
+Theorem intent_hides_what_is_below : forall name a k l, arg_is name a = false -> visible name (AT a true k l) = [].
+Proof. exact L_hidden_by_intent. Qed.
+Print Assumptions intent_hides_what_is_below.
+
+Theorem other_arg_hides_what_is_below : forall name n i k l, (n =? name) = false -> visible name (AT (Some n) i k l) = [].
+Proof. exact L_hidden_by_other_arg. Qed.
+Print Assumptions other_arg_hides_what_is_below.
+
+(* what a reference resolves to carries the name, and lies below the element that carries the intent *)
+Theorem resolved_element_carries_the_name : forall name t r, resolve name t = Some r -> In r (flat_map (labels_with name) (a_kids t)).
+Proof. exact L_resolved_carries_the_name. Qed.
+Print Assumptions resolved_element_carries_the_name.
